@@ -357,3 +357,6 @@ Definition stringer_hash (s : list Z) (len : Z) (key : list Z) : lres :=
   | LOk h => lbase58_encode h
   | e => e
   end.
+
+(* stringer.hash(s): `len = len or 20`, no key *)
+Definition stringer_hash_default (s : list Z) : lres := stringer_hash s STRINGER_DEFAULT_LEN [].
